@@ -123,6 +123,13 @@ namespace nmtools::index
                 return return_t{meta::Nothing};
             }
 
+            // only -1 is a placeholder, any other negative extent is invalid
+            for (size_t i=0; i<(size_t)len(dst_shape); i++) {
+                if ((index_t)at(dst_shape,i) < index_t(-1)) {
+                    return return_t{meta::Nothing};
+                }
+            }
+
             auto src_numel = (size_t)product(src_shape);
 
             if ((minus_1_count == 0) && (src_numel != dst_numel)) {
